@@ -1,9 +1,12 @@
+mod acl;
 mod big;
 mod gen;
+mod intlog;
 mod mon;
 mod ops;
 mod plan;
 mod rng;
+mod twin;
 mod world;
 
 use ops::*;
@@ -12,6 +15,12 @@ use serde_json::{json, Value};
 use std::collections::BTreeMap;
 use std::panic::{catch_unwind, AssertUnwindSafe};
 use std::time::Instant;
+
+pub static LAST_PANIC: std::sync::Mutex<String> = std::sync::Mutex::new(String::new());
+
+pub fn last_panic() -> String {
+    LAST_PANIC.lock().map(|g| g.clone()).unwrap_or_default()
+}
 
 pub struct Args {
     pub cmd: String,
@@ -128,7 +137,13 @@ fn write_summary(a: &Args, report: &Report, stats: &RunStats, wall: f64, extra: 
 fn main() {
     let a = parse_args();
     // contract panics are reverted transactions; keep stderr quiet but remember the last message
-    std::panic::set_hook(Box::new(|_| {}));
+    std::panic::set_hook(Box::new(|info| {
+        if let Some(l) = info.location() {
+            if let Ok(mut g) = LAST_PANIC.lock() {
+                *g = format!("{}:{}", l.file(), l.line());
+            }
+        }
+    }));
     let t0 = Instant::now();
     match a.cmd.as_str() {
         "run" => {
@@ -138,9 +153,23 @@ fn main() {
             let res = catch_unwind(AssertUnwindSafe(|| plan::run(&a, &mut report, &mut stats, &mut extra)));
             if let Err(p) = res {
                 let text = p.downcast_ref::<String>().cloned().or_else(|| p.downcast_ref::<&str>().map(|s| s.to_string())).unwrap_or_default();
-                report.inconclusive(format!("harness panic: {}", text));
+                report.inconclusive(format!("harness panic: {} at {}", text, last_panic()));
             }
             write_summary(&a, &report, &stats, t0.elapsed().as_secs_f64(), extra);
+        }
+        "intlog" => {
+            // perpmon intlog --seed S --shard i --budget N [--file pair.json] [--tier boundary]
+            if !a.file.is_empty() {
+                let text = std::fs::read_to_string(&a.file).expect("pair file");
+                let v: Value = serde_json::from_str(&text).expect("pair json");
+                let an = v["a"][0].as_bool().unwrap_or(false);
+                let am: u128 = v["a"][1].as_str().unwrap_or("0").parse().unwrap_or(0);
+                let bn = v["b"][0].as_bool().unwrap_or(false);
+                let bm: u128 = v["b"][1].as_str().unwrap_or("0").parse().unwrap_or(0);
+                println!("{}", intlog::record(an, am, bn, bm));
+            } else {
+                intlog::run(a.seed, a.shard, a.budget.unwrap_or(1000), a.shard == 0);
+            }
         }
         "replay" => {
             let mut report = Report::default();
